@@ -283,7 +283,7 @@ pub fn run(ctx: &Ctx) -> Report {
         })
         .reduce(Acc::default, |a, b| a.merge(b));
     // (c) skeleton space with single faults, all four classes
-    let (n_full, n_small) = ctx.tier.pick((2, 4), (3, 5));
+    let (n_full, n_small) = ctx.tier.pick((3, 4), (4, 5));
     let sk = engine_in::skeletons(n_full, n_small);
     let n_sk = sk.len();
     let acc_c = sk
